@@ -156,6 +156,7 @@ def datainfo_to_cdt(d):
 # classes
 # ----------------------------------------------------------------------------------------
 UNITS = ['', 'K', 'mbar', 'T']
+KINDS = ['KA', 'KB']
 
 
 def gen_dt(rng, allow_array=True):
@@ -313,8 +314,17 @@ def gen_class(rng, idx):
                 optional[-1]['decl'] = p
         if rng.random() < 0.5:
             optional.append({'name': 'oc', 'kind': 'cmd', 'impl': rng.random() < 0.5})
+    # what the class IS (mixin classes other modules may ask for) and which other modules it wants attached:
+    # `Attached(basecls, mandatory=…)` properties, resolved by the node once all modules are constructed; a class may use
+    # the attribute itself while it is initialised (like HasIO.io) or only later (like HasOutputModule.output_module)
+    kinds = [k for k in KINDS if rng.random() < 0.4]
+    attached = []
+    if rng.random() < 0.45:
+        for name in ['att', 'att2'][:rng.choice([1, 1, 2])]:
+            attached.append({'name': name, 'base': rng.choice(['Module'] + KINDS + KINDS), 'mandatory': rng.random() < 0.4,
+                             'init': rng.random() < 0.3})
     return {'id': f'C{idx}', 'params': params, 'modprops': modprops, 'cmd': rng.random() < 0.3, 'groups': groups,
-            'optional': optional}
+            'optional': optional, 'kinds': kinds, 'attached': attached}
 
 
 def pyval(cv):
@@ -424,12 +434,36 @@ def build_class(spec):
     ns['doPoll'] = doPoll
     ns['_vlog'] = None
     ns['__module__'] = GENMOD
+    from frappy.modules import Attached
+    for a in spec.get('attached', []):
+        ns[a['name']] = Attached(kind_class(a['base']), mandatory=a['mandatory'])
+    used = [a['name'] for a in spec.get('attached', []) if a['init']]
+    if used:
+        def initModule(self, _used=tuple(used)):
+            base_init(self)
+            for n in _used:
+                getattr(self, n)              # the module's own code needs the attached module to initialise
+        ns['initModule'] = initModule
     base = Module
     if basens:
         basens['__module__'] = GENMOD
         base = type('B' + spec['id'], (Module,), basens)
-    cls = type(spec['id'], (base,), ns)
+    base_init = base.initModule
+    cls = type(spec['id'], tuple(kind_class(k) for k in spec.get('kinds', [])) + (base,), ns)
     return cls
+
+
+_KIND_CLASSES = {}
+
+
+def kind_class(name):
+    """mixin classes a generated module class may inherit from, asked for by `Attached(basecls)`"""
+    from frappy.modules import Module
+    if name == 'Module':
+        return Module
+    if name not in _KIND_CLASSES:
+        _KIND_CLASSES[name] = type(name, (), {'__module__': GENMOD})
+    return _KIND_CLASSES[name]
 
 
 MODULE_PROP_DTS = {
@@ -449,9 +483,16 @@ def class_desc(spec, cls):
     byname = {p['name']: p for p in spec['params']}
     own_mp = {m['name']: m for m in spec['modprops']}
     modprops = []
+    from frappy.modules import Attached
+    att = [[k, po.basecls.__name__] for k, po in cls.propertyDict.items() if isinstance(po, Attached)]
+    first = [a['name'] for a in spec.get('attached', []) if a['init']]
+    # resolution order: what the module's own initModule asks for, then the loop of SecNode.get_module over propertyDict
+    att = [a for n in first for a in att if a[0] == n] + [a for a in att if a[0] not in first]
     for k, po in cls.propertyDict.items():
         if k in own_mp:
             dt = own_mp[k]['dt']
+        elif isinstance(po, Attached):
+            dt = {'t': 'string', 'minchars': 0, 'maxchars': 1 << 64, 'utf8': False}          # StringType()
         else:
             dt = MODULE_PROP_DTS.get(k)
         class_value = None
@@ -485,7 +526,8 @@ def class_desc(spec, cls):
                            'consumes': consumes.get(aname, [])})
         else:
             other.append(aname)
-    return {'modprops': modprops, 'params': params, 'other': other}
+    return {'modprops': modprops, 'params': params, 'other': other,
+            'kinds': [b.__name__ for b in cls.__mro__ if b.__name__ in KINDS + ['Module']], 'attached': att}
 
 
 # ----------------------------------------------------------------------------------------
@@ -910,25 +952,73 @@ def classify(text):
 
 
 def split_errors(errors):
-    """SecNode.errors -> {module: [kinds]}"""
+    """SecNode.errors -> {module: [kinds]} for the modules which were not created (a constructor which is run a second
+    time - `get_module_instance` for an attached module which is configured but not registered - reports again: the first
+    block counts, `creation_blocks` counts them)"""
     res = {}
     cur = None
+    seen = set()
     for line in errors:
         m = re.match(r'^error creating module (\w+):$', line)
         if m:
-            cur = m.group(1)
-            res.setdefault(cur, [])
+            cur = m.group(1) if m.group(1) not in seen else '#again'
+            seen.add(m.group(1))
+            if cur != '#again':
+                res.setdefault(cur, [])
             continue
         m = re.match(r'^error creating (\w+)$', line)
         if m:
-            res.setdefault(m.group(1), []).append({'k': 'raised'})
+            if m.group(1) not in seen:
+                res.setdefault(m.group(1), []).append({'k': 'raised'})
+            seen.add(m.group(1))
             cur = None
+            continue
+        if INIT_RX.match(line):
+            cur = None
+            continue
+        if line.startswith('  ') and cur == '#again':
             continue
         if line.startswith('  ') and cur is not None:
             res[cur].append(classify(line[2:]))
         else:
             res.setdefault('?', []).append({'k': 'other', 'text': line[:120]})
     return res
+
+
+INIT_RX = re.compile(r'^error initializing (\w+): (.*)$')
+INIT_KINDS = [
+    (re.compile(r"NoSuchModule\(.*Module '(\w*)' does not exist on this"), 'noSuchModule'),
+    (re.compile(r"attached module \w+='(\w*)' does not exist"), 'doesNotExist'),
+    (re.compile(r"attached module \w+='(\w*)' must inherit from"), 'wrongKind'),
+    (re.compile(r"attached module \w+='(\w*)' failed to initialize"), 'targetFailed'),
+    (re.compile(r"cyclic dependency: module '(\w*)' is needed"), 'cyclic'),
+]
+
+
+def init_errors(errors):
+    """SecNode.errors -> [[module, kind, target]] for the modules which were created but failed to initialise"""
+    out = []
+    for line in errors:
+        m = INIT_RX.match(line)
+        if m:
+            for rx, kind in INIT_KINDS:
+                t = rx.search(m.group(2))
+                if t:
+                    out.append([m.group(1), kind, t.group(1)])
+                    break
+            else:
+                out.append([m.group(1), 'other', m.group(2)[:100]])
+    return out
+
+
+def creation_blocks(errors):
+    """how often each module is reported as not created"""
+    n = {}
+    for line in errors:
+        m = re.match(r'^error creating (?:module )?(\w+):?$', line)
+        if m:
+            n[m.group(1)] = n.get(m.group(1), 0) + 1
+    return n
 
 
 class _Stop(Exception):
@@ -1008,6 +1098,10 @@ def observe_module(node, name, spec, cls, effective):
                 obs['modprops'].append([k, canon(getattr(m, k))])
             except Exception:
                 pass
+    from frappy.modules import Attached
+    for k, po in cls.propertyDict.items():
+        if isinstance(po, Attached) and k in m.propertyValues:
+            obs['modprops'].append([k, canon(m.propertyValues[k])])          # the NAME stored (the attribute is judged at node level)
     m._vlog = []
     start_values = {pn: (canon(po.value), po.readerror) for pn, po in m.parameters.items()}
     run_prologue(m, bool(spec.get('groups')) or name.endswith('1'))
@@ -1061,6 +1155,67 @@ def observe_module(node, name, spec, cls, effective):
     return obs
 
 
+def observe_node(node, eff, errs):
+    """node-level observation: which modules are registered / reported as not created / reported as not initialised,
+    whether the node would start, and - for a node which starts - what every attached-module attribute IS"""
+    from frappy.modules import Attached
+    ierrs = init_errors(node.errors)
+    obs = {'configured': list(eff), 'registered': list(node.modules), 'reported': [k for k in errs],
+           'starts': not node.errors, 'initReported': sorted({e[0] for e in ierrs}), 'attached': [],
+           'init': ierrs, 'blocks': creation_blocks(node.errors)}
+    if not node.errors:
+        for name, m in node.modules.items():
+            for k, po in type(m).propertyDict.items():
+                if isinstance(po, Attached):
+                    try:
+                        x = getattr(m, k)
+                        obs['attached'].append([name, k, None if x is None else x.name])
+                    except Exception:
+                        obs['attached'].append([name, k, None])
+    return obs
+
+
+NODE_KEYS = ('configured', 'registered', 'reported', 'starts', 'initReported', 'attached')
+
+
+def node_requests(g):
+    """the model of the node (`node`) and the monitors on what was observed (`judge_node`: the modules as WRITTEN)"""
+    mods = [{'name': mo['name'], 'cls': mo['cls'], 'cfg': mo['cfg']} for mo in g['mods']]
+    return [{'p': 'C10', 'k': 'node', 'mods': mods},
+            dict({k: g['node'][k] for k in NODE_KEYS}, p='C10', k='judge_node', mods=mods)]
+
+
+def node_sig(judge, nodeobs):
+    """short stable signature of what fails at node level (Python only names it; the verdict is Lean's)"""
+    if judge['ok']:
+        return None
+    if not judge.get('node', False):
+        return 'C10:node:failing-module-not-reported'
+    if not judge['attached']:
+        if judge['bad'] and nodeobs['starts']:
+            return 'C10:attached-module:erroneous-config-accepted'
+        if judge['bad']:
+            return 'C10:attached-module:failing-module-not-reported'
+        return 'C10:attached-module:not-applied'
+    return 'C10:attached-module:valid-config-rejected'
+
+
+def compare_node(model, nodeobs):
+    diffs = []
+    if model['registered'] != nodeobs['registered'] or model['starts'] != nodeobs['starts'] \
+            or [e[0] for e in model['errors']] != nodeobs['reported']:
+        diffs.append('registered / reported / starts')
+    mi = sorted([e[0], e[1]['k'], e[1].get('target')] for e in model['init'])
+    if mi != sorted(nodeobs['init']):
+        diffs.append(f'modules failing to initialise: model {mi} impl {sorted(nodeobs["init"])}')
+    mb = {e[0]: 1 + model['recreated'].count(e[0]) for e in model['errors']}
+    if mb != nodeobs['blocks']:
+        diffs.append(f'how often a failing constructor is run and reported: model {mb} impl {nodeobs["blocks"]}')
+    if nodeobs['starts'] and sorted(model['attached']) != sorted(a for a in nodeobs['attached'] if a[2] is not None):
+        diffs.append(f'attached modules: model {sorted(model["attached"])} impl {sorted(nodeobs["attached"])}')
+    return diffs
+
+
 def make_node(module_cfg):
     from vlib.node import Node
     logging.disable(logging.CRITICAL)
@@ -1092,9 +1247,12 @@ def gen_case(rng, idx):
     path = rng.choice(['raw', 'dsl', 'dsl'])
     nfiles = rng.choice([1, 1, 2, 3]) if path == 'dsl' else 1
     mods = []
+    # a third of the nodes has no injected error at all: only such a node starts (and is started a second time), and only
+    # on a node which starts an attached module shows on the instance
+    clean = rng.random() < 0.3
     for i in range(nmod):
         spec = rng.choice(specs)
-        nerr = rng.choice([0, 0, 0, 1, 1, 2, 3, 4])
+        nerr = 0 if clean else rng.choice([0, 0, 0, 1, 1, 2, 3, 4])
         entries, kinds = gen_module_cfg(rng, spec, nerr)
         mods.append({'name': f'm{i}', 'cls': spec['id'], 'entries': entries, 'kinds': kinds, 'file': rng.randrange(nfiles)})
     # duplicates of a module name in another file (and rarely in the same file)
@@ -1106,6 +1264,7 @@ def gen_case(rng, idx):
                 entries, kinds = gen_module_cfg(rng, spec, rng.choice([0, 0, 1]))
                 f = rng.choice([x for x in range(nfiles) if x != mo['file']] if rng.random() < 0.9 else [mo['file']])
                 extra.append({'name': mo['name'], 'cls': spec['id'], 'entries': entries, 'kinds': kinds, 'file': f})
+    assign_attachments(rng, specs, mods + extra, 0.85 if clean else 0.55)
     case = {'specs': specs, 'path': path, 'nfiles': nfiles, 'mods': mods + extra}
     if path == 'dsl':
         for mo in case['mods']:
@@ -1114,6 +1273,43 @@ def gen_case(rng, idx):
     # a node without configuration error is started a second time from the SAME loaded configuration (Server.restart)
     case['restart'] = True
     return case
+
+
+def assign_attachments(rng, specs, mods, pgood):
+    """values for the attached-module properties: needs the node (names and kinds of the other modules).  Mostly a module
+    of the right kind; also a module of the wrong kind, a name no module has (typo), the empty string, the module itself,
+    nothing at all (mandatory or not)"""
+    byid = {sp['id']: sp for sp in specs}
+    for mo in mods:
+        spec = byid[mo['cls']]
+        for a in spec.get('attached', []):
+            if any(k == a['name'] for k, _ in mo['entries']):
+                continue
+            if rng.random() >= (0.93 if a['mandatory'] else 0.65):
+                if a['mandatory']:
+                    mo['kinds'].append('missing_mandatory')
+                continue
+            others = [x for x in mods if x['name'] != mo['name']]
+            good = [x['name'] for x in others if a['base'] == 'Module' or a['base'] in byid[x['cls']].get('kinds', [])]
+            wrong = [x['name'] for x in others if x['name'] not in good]
+            r = rng.random()
+            if rng.random() < pgood and good:
+                v = rng.choice(good)
+            elif r < 0.3 and wrong:
+                v, _ = rng.choice(wrong), mo['kinds'].append('att_wrong_kind')
+            elif r < 0.6:
+                v = rng.choice(['nosuch', mo['name'] + 'x'] + [x['name'] + 't' for x in others] + [x['name'][:-1] for x in others])
+                mo['kinds'].append('att_no_such_module')
+            elif r < 0.72:
+                v = ''
+            elif r < 0.8:
+                v = mo['name']                       # needs itself
+            elif others:
+                v = rng.choice(others)['name']
+            else:
+                continue
+            ent = ('bare', v) if rng.random() < 0.6 else ('dict', [('value', v)])
+            mo['entries'].insert(rng.randint(0, len(mo['entries'])), (a['name'], ent))
 
 
 def effective_cfgs(case, classes, res=None):
@@ -1212,8 +1408,7 @@ def run_case(case):
             mods.append({'name': name, 'spec': spec, 'cls': class_desc(spec, cls), 'cfg': snap[name]['cfg'],
                          'before': snap[name]['before'], 'after': lean_cfg(cls, d), 'gen': gen, 'dsl': case['path'] == 'dsl',
                          'jcfg': snap[name]['jcfg'], 'obs': observe_module(node, name, spec, cls, d)})
-        nodeobs = {'configured': list(eff), 'registered': list(node.modules), 'reported': [k for k in errs],
-                   'starts': not node.errors}
+        nodeobs = observe_node(node, eff, errs)
         gens.append({'mods': mods, 'node': nodeobs})
         if node.errors or not case.get('restart') or os.environ.get('VERIF_C10_NORESTART'):
             break                       # a node with configuration errors exits: there is no restart
@@ -1436,6 +1631,11 @@ def case_sigs(ctx, case):
             sig = violation_sig(a[1], mo['obs'], mo)
             if sig and sig not in sigs:
                 sigs[sig] = (mo, a[1])
+        if g['node'] is not None:
+            a = ctx.driver.batch(node_requests(g))
+            sig = node_sig(a[1], g['node'])
+            if sig and sig not in sigs:
+                sigs[sig] = (None, a[1])
     return sigs
 
 
@@ -1530,9 +1730,7 @@ def run(ctx):
                 reqs += module_requests(mo)
             if g['node'] is not None:
                 g['pos'] = len(reqs)
-                reqs.append({'p': 'C10', 'k': 'node',
-                             'mods': [{'name': mo['name'], 'cls': mo['cls'], 'cfg': mo['cfg']} for mo in g['mods']]})
-                reqs.append(dict(g['node'], p='C10', k='judge_node'))
+                reqs += node_requests(g)
         if out['merge'] is not None:
             mpos = len(reqs)
             reqs.append({'p': 'C10', 'k': 'merge', 'files': out['merge']['files_raw']})
@@ -1645,13 +1843,34 @@ def run(ctx):
             res.traces += 1
             res.count('node.modules=%d' % len(g['node']['configured']))
             res.count('node.failing=%d' % min(len(g['node']['reported']), 3))
-            if ctx.model_ok and (model['registered'] != g['node']['registered'] or model['starts'] != g['node']['starts']
-                                 or [e[0] for e in model['errors']] != g['node']['reported']):
-                res.disagreements.append({'case': {'kind': 'node', 'case': case}, 'model': model, 'impl': g['node']})
-            if not judge['ok']:
-                res.violations.append({'sig': 'C10:node:failing-module-not-reported',
-                                       'what': f'node-level report incomplete: {g["node"]}',
-                                       'case': {'kind': 'node', 'case': case}})
+            res.count('node.failing-to-initialise=%d' % min(len(g['node']['initReported']), 3))
+            for e in g['node']['init']:
+                res.count('initerr.' + e[1])
+            for a in g['node']['attached']:
+                res.count('attached.attribute=' + ('module' if a[2] else 'None'))
+            if judge['bad']:
+                res.count('node.with-bad-attachment')
+            if ctx.model_ok:
+                diffs = compare_node(model, g['node'])
+                if not judge['hyp']:
+                    diffs.append('the node is outside the hypotheses of the theorems (distinct module names, WellFormed classes)')
+                if diffs:
+                    res.disagreements.append({'case': {'kind': 'node', 'case': case}, 'model': diffs[:4], 'impl': g['node']})
+            sig = node_sig(judge, g['node'])
+            if sig:
+                res.count('violation.' + sig)
+                vcase = {'kind': 'node', 'case': case}
+                if not any(v['sig'] == sig for v in res.violations) and shrunk < 6:
+                    shrunk += 1
+                    try:
+                        vcase = {'kind': 'node', 'case': shrink_case(ctx, case, sig)}
+                    except Exception:
+                        pass
+                res.violations.append({'sig': sig,
+                                       'what': f'{sig}: modules with an attachment the node can not provide: {judge["bad"]}; '
+                                               f'cfg: {case_text(vcase["case"])} -> '
+                                               f'{ {k: g["node"][k] for k in NODE_KEYS} } judge={judge}',
+                                       'case': vcase})
         if out['merge'] is not None:
             model, judge = ans[mpos], ans[mpos + 1]
             res.evaluations += 1
@@ -1697,10 +1916,11 @@ def replay(ctx, rp):
     print('config :', case_text(case['case']))
     bad = False
     for g in out['gens']:
-        reqs = [dict(g['node'], p='C10', k='judge_node')]
-        a = ctx.driver.batch(reqs)
-        print('node   :', g['node'], a)
-        bad = bad or any(not x.get('ok') for x in a)
+        a = ctx.driver.batch(node_requests(g))
+        print('node   :', g['node'])
+        print('model  :', json.dumps(a[0])[:800])
+        print('judge  :', a[1], node_sig(a[1], g['node']) or '')
+        bad = bad or not a[1].get('ok')
         for mo in g['mods']:
             j = judge_module(ctx, mo)
             sig = violation_sig(j[1], mo['obs'], mo)
